@@ -99,6 +99,7 @@ type Run struct {
 	counters  map[string]int
 	samples   []any
 	failures  []OracleFailure
+	perClass  map[string]int
 	extra     map[string]any
 	maxSample int
 }
@@ -189,10 +190,17 @@ func (r *Run) Set(key string, v any) { r.extra[key] = v }
 
 // Fail records an oracle failure.
 func (r *Run) Fail(f OracleFailure) {
-	if len(r.failures) < 200 {
+	// Keep at most 8 failures per class (and 400 in all): a recorded finding that fires on every
+	// case must not crowd a NEW class raised late in the run out of oracle.json.
+	if r.perClass == nil {
+		r.perClass = map[string]int{}
+	}
+	r.perClass[f.Class]++
+	if r.perClass[f.Class] <= 8 && len(r.failures) < 400 {
 		r.failures = append(r.failures, f)
 	}
 	r.counters["_oracle_failures"]++
+	r.counters["_oracle_failures:"+f.Class]++
 }
 
 // Finish flushes everything and writes stats.json and oracle.json.
